@@ -377,9 +377,14 @@ func (f *Frame) stdModel(in ssa.Instruction, callee *ssa.Function, cc *ssa.CallC
 		}
 		return []Term{Ite(And(Ge(r, IntLit(0)), Lt(r, IntLit(256))), Or(Lt(r, IntLit(32)), And(Ge(r, IntLit(127)), Lt(r, IntLit(160)))), app(SBool, "ext_isControl", r))}, true
 	case "strings.ToUpper", "strings.ToLower", "strings.TrimSpace":
-		r := c.fresh(callee.Name(), SStr)
-		c.note("assumed", "assumed contract: "+name+" (result unconstrained)")
-		return []Term{r}, true
+		// a deterministic function of the argument's contents; nothing else is assumed
+		c.note("assumed", "assumed contract: "+name+" is a function of its argument (result otherwise unconstrained)")
+		fn := "ext_" + smtSym(name)
+		if !c.declared[fn] {
+			c.declared[fn] = true
+			c.emit(fmt.Sprintf("(declare-fun %s (Str) Str)", fn))
+		}
+		return []Term{app(SStr, fn, args[0][0])}, true
 	case "strings.EqualFold":
 		c.note("assumed", "assumed contract: strings.EqualFold(s,t) is reflexive")
 		r := c.fresh("equalfold", SBool)
